@@ -19,7 +19,21 @@ theorem sameOrigin_effective {a b : Lst} (h : sameOrigin a b = true) :
 def Confined (w : World) (q : Req) : Prop :=
   ∀ l, q.auth = some l → sameOrigin (w.lst l) (w.lst q.lst) = true
 
-theorem prepare_spec {access canFill : Bool} {r0 r : Req} (h : prepare access canFill r0 = some r) :
+theorem sent_confined {w : World} {r : Req} (h : Confined w r) : Confined w r.sent := by
+  intro l hl
+  unfold Req.sent at hl ⊢
+  simp only at hl ⊢
+  cases ha : r.auth with
+  | some x => rw [ha] at hl; simp only at hl; exact h l (by rw [ha]; exact hl)
+  | none =>
+    rw [ha] at hl; simp only at hl
+    split at hl
+    · cases hl; exact sameOrigin_refl _
+    · cases hl
+
+theorem sent_lst (r : Req) : r.sent.lst = r.lst := rfl
+
+theorem prepare_spec {access : Bool} {canFill : Nat → Bool} {r0 r : Req} (h : prepare access canFill r0 = some r) :
     r.lst = r0.lst ∧ r.node = r0.node ∧ (r.auth = r0.auth ∨ r.auth = some r0.lst) := by
   unfold prepare at h
   split at h
@@ -28,7 +42,7 @@ theorem prepare_spec {access canFill : Bool} {r0 r : Req} (h : prepare access ca
     · cases h; exact ⟨rfl, rfl, Or.inr rfl⟩
     · cases h
 
-theorem prepare_confined {w : World} {access canFill : Bool} {r0 r : Req}
+theorem prepare_confined {w : World} {access : Bool} {canFill : Nat → Bool} {r0 r : Req}
     (h : prepare access canFill r0 = some r) (hc : Confined w r0) : Confined w r := by
   obtain ⟨hl, _, ha⟩ := prepare_spec h
   intro l hq
@@ -67,7 +81,7 @@ theorem nextReq_noDowngrade {w : World} {r nx : Req} {to : Nat} {loc : Loc}
     · cases h
     · rename_i hnd; cases h; exact hnd
 
-theorem chain_confined (w : World) (access canFill : Bool) :
+theorem chain_confined (w : World) (access : Bool) (canFill : Nat → Bool) :
     ∀ (fuel via : Nat) (r : Req), Confined w r → ∀ q ∈ (chain w access canFill fuel via r).1, Confined w q := by
   intro fuel
   induction fuel with
@@ -79,25 +93,26 @@ theorem chain_confined (w : World) (access canFill : Bool) :
     | none => simp [hp] at hq
     | some r =>
       have hr := prepare_confined hp hr0
+      have hs := sent_confined hr
       simp only [hp] at hq
-      cases ha : w.answer r with
-      | final => simp [ha] at hq; subst hq; exact hr
-      | notFound => simp [ha] at hq; subst hq; exact hr
-      | unauthorized => simp [ha] at hq; subst hq; exact hr
+      cases ha : w.answer r.sent with
+      | final => simp [ha] at hq; subst hq; exact hs
+      | notFound => simp [ha] at hq; subst hq; exact hs
+      | unauthorized => simp [ha] at hq; subst hq; exact hs
       | redirect to loc =>
         simp only [ha] at hq
         by_cases hv : via + 1 ≥ maxVia
-        · simp [hv] at hq; subst hq; exact hr
+        · simp [hv] at hq; subst hq; exact hs
         · simp only [hv, if_false] at hq
           cases hn : nextReq w r to loc with
-          | none => simp [hn] at hq; subst hq; exact hr
+          | none => simp [hn] at hq; subst hq; exact hs
           | some nx =>
             simp only [hn] at hq
             rcases List.mem_cons.mp hq with h | h
-            · subst h; exact hr
+            · subst h; exact hs
             · exact ih (via + 1) nx (nextReq_confined hn hr) q h
 
-theorem chain_length (w : World) (access canFill : Bool) :
+theorem chain_length (w : World) (access : Bool) (canFill : Nat → Bool) :
     ∀ (fuel via : Nat) (r : Req), via < maxVia → (chain w access canFill fuel via r).1.length + via ≤ maxVia := by
   intro fuel
   induction fuel with
@@ -109,7 +124,7 @@ theorem chain_length (w : World) (access canFill : Bool) :
     | none => simp; omega
     | some r =>
       simp only
-      cases ha : w.answer r with
+      cases ha : w.answer r.sent with
       | final => simp; omega
       | notFound => simp; omega
       | unauthorized => simp; omega
@@ -131,7 +146,7 @@ def NoDowngrade (w : World) : List Req → Prop
   | [_] => True
   | a :: b :: rest => ¬ ((w.lst a.lst).scheme = .https ∧ (w.lst b.lst).scheme = .http) ∧ NoDowngrade w (b :: rest)
 
-theorem chain_head (w : World) (access canFill : Bool) (fuel via : Nat) (r0 : Req) :
+theorem chain_head (w : World) (access : Bool) (canFill : Nat → Bool) (fuel via : Nat) (r0 : Req) :
     ∀ q rest, (chain w access canFill fuel via r0).1 = q :: rest → q.lst = r0.lst := by
   intro q rest h
   cases fuel with
@@ -141,9 +156,9 @@ theorem chain_head (w : World) (access canFill : Bool) (fuel via : Nat) (r0 : Re
     cases hp : prepare access canFill r0 with
     | none => simp [hp] at h
     | some r =>
-      have hl := (prepare_spec hp).1
+      have hl : r.sent.lst = r0.lst := (prepare_spec hp).1
       simp only [hp] at h
-      cases ha : w.answer r with
+      cases ha : w.answer r.sent with
       | final => simp [ha] at h; rw [← h.1]; exact hl
       | notFound => simp [ha] at h; rw [← h.1]; exact hl
       | unauthorized => simp [ha] at h; rw [← h.1]; exact hl
@@ -156,7 +171,7 @@ theorem chain_head (w : World) (access canFill : Bool) (fuel via : Nat) (r0 : Re
           | none => simp [hn] at h; rw [← h.1]; exact hl
           | some nx => simp [hn] at h; rw [← h.1]; exact hl
 
-theorem chain_noDowngrade (w : World) (access canFill : Bool) :
+theorem chain_noDowngrade (w : World) (access : Bool) (canFill : Nat → Bool) :
     ∀ (fuel via : Nat) (r : Req), NoDowngrade w (chain w access canFill fuel via r).1 := by
   intro fuel
   induction fuel with
@@ -168,7 +183,7 @@ theorem chain_noDowngrade (w : World) (access canFill : Bool) :
     | none => simp [NoDowngrade]
     | some r =>
       simp only
-      cases ha : w.answer r with
+      cases ha : w.answer r.sent with
       | final => simp [NoDowngrade]
       | notFound => simp [NoDowngrade]
       | unauthorized => simp [NoDowngrade]
@@ -188,10 +203,10 @@ theorem chain_noDowngrade (w : World) (access canFill : Bool) :
               have hq := chain_head w access canFill fuel (via + 1) nx q rest ht
               rw [ht] at hrec
               refine ⟨?_, hrec⟩
-              rw [hq]
+              rw [hq, sent_lst]
               exact nextReq_noDowngrade hn
 
-theorem runAuth_confined (w : World) (canFill : Bool) :
+theorem runAuth_confined (w : World) (canFill : Nat → Bool) :
     ∀ (fuel : Nat) (access : Bool) (orig : Req), Confined w orig → ∀ q ∈ runAuth w canFill fuel access orig, Confined w q := by
   intro fuel
   induction fuel with
